@@ -23,6 +23,7 @@ type SpecEnv struct {
 	old   *State
 	pkg   *types.Package
 	lookup func(name string) (SpecVal, bool) // extra resolver (locals at a loop header)
+	lookupAddr func(name string) (Term, types.Type, bool) // address of a local that lives in memory (&x in invariants)
 	// side conditions collected while evaluating (definedness assumptions of
 	// contract instantiations inside lemmas); they are assumed, not proved.
 	assumes []Term
@@ -676,6 +677,13 @@ func (env *SpecEnv) addrOf(e *Expr) (Term, types.Type, error) {
 			return vc.globalAddr(v), v.Type(), true
 		}
 		return Term{}, nil, false
+	}
+	if e.Kind == EIdent && env.lookupAddr != nil {
+		if _, isVar := env.vars[e.Name]; !isVar {
+			if a, t, ok := env.lookupAddr(e.Name); ok {
+				return a, t, nil
+			}
+		}
 	}
 	if e.Kind == EIdent && env.pkg != nil {
 		if _, isVar := env.vars[e.Name]; !isVar {
@@ -1551,6 +1559,58 @@ func (env *SpecEnv) callGhost(gf *GhostFunc, args []*Expr) (SpecVal, error) {
 func (env *SpecEnv) callPure(pf *PureFunc, args []*Expr) (SpecVal, error) {
 	if len(args) != len(pf.Params) {
 		return SpecVal{}, fmt.Errorf("pure func %s: want %d arguments", pf.Name, len(pf.Params))
+	}
+	if pf.Hidden && !(env.vc.contract != nil && env.vc.contract.Reveals[pf.Name]) {
+		// uninterpreted here: a function of its argument values
+		vc := env.vc
+		var all []Term
+		var sorts []Sort
+		for i := range pf.Params {
+			v, err := env.Eval(args[i])
+			if err != nil {
+				return SpecVal{}, err
+			}
+			t := v.T
+			if v.Lit != nil {
+				pty, perr := env.resolveTypeName(pf.Params[i].Type)
+				if perr != nil || pty == nil {
+					return SpecVal{}, fmt.Errorf("hidden pure func %s: literal argument %d needs a typed parameter", pf.Name, i)
+				}
+				srt, serr := vc.tt.SortOf(pty)
+				if serr != nil {
+					return SpecVal{}, serr
+				}
+				t = env.litTerm(v.Lit, srt)
+			}
+			all = append(all, t)
+			sorts = append(sorts, t.Sort)
+		}
+		var rs Sort = SBool
+		var rty types.Type
+		if pf.Result != "bool" {
+			var w int
+			if n, _ := fmt.Sscanf(pf.Result, "bv%d", &w); n == 1 {
+				rs = SBV(w)
+			} else {
+				t, err := env.resolveTypeName(pf.Result)
+				if err != nil {
+					return SpecVal{}, err
+				}
+				rty = t
+				rs, err = vc.tt.SortOf(t)
+				if err != nil {
+					return SpecVal{}, err
+				}
+			}
+		} else {
+			rty = types.Typ[types.Bool]
+		}
+		name := "hid!" + sanitize(pf.PkgPath+"."+pf.Name)
+		for _, srt := range sorts {
+			name += "!" + sanitize(string(srt))
+		}
+		vc.DeclareFun(name, sorts, rs)
+		return SpecVal{T: App(rs, name, all...), Ty: rty}, nil
 	}
 	sub := env.child()
 	for i, p := range pf.Params {
